@@ -161,13 +161,20 @@ theorem nest_inv (cfg : Cfg) : ∀ (s : Stream) (st : St) (stI stO stI' : List Q
           simp; rw [balance_skip _ (by simp [Event.isStartEnd])]
           exact ih _ stI stO stI' rest hinv hb hrest
     | doctype n p s =>
-      simp [step] at hr; subst hr
+      unfold step at hr
       rw [balance_skip _ (by simp [Event.isStartEnd])] at hb
-      cases hw : st.waiting with
-      | some w => simp; exact ih _ stI stO stI' rest hinv hb hrest
-      | none =>
-        simp; rw [balance_skip _ (by simp [Event.isStartEnd])]
+      by_cases hgt : dtHasGt n p s = true
+      · simp only [hgt, ↓reduceIte, pure_eq_ok, Except.ok.injEq] at hr
+        subst hr
+        simp only [List.nil_append]
         exact ih _ stI stO stI' rest hinv hb hrest
+      · simp only [hgt, Bool.false_eq_true, ↓reduceIte, pure_eq_ok, Except.ok.injEq] at hr
+        subst hr
+        cases hw : st.waiting with
+        | some w => simp; exact ih _ stI stO stI' rest hinv hb hrest
+        | none =>
+          simp; rw [balance_skip _ (by simp [Event.isStartEnd])]
+          exact ih _ stI stO stI' rest hinv hb hrest
     | xmlDecl v e s =>
       simp [step] at hr; subst hr
       rw [balance_skip _ (by simp [Event.isStartEnd])] at hb
@@ -195,19 +202,13 @@ theorem nest_inv (cfg : Cfg) : ∀ (s : Stream) (st : St) (stI stO stI' : List Q
     | startCdata =>
       simp [step] at hr; subst hr
       rw [balance_skip _ (by simp [Event.isStartEnd])] at hb
-      cases hw : st.waiting with
-      | some w => simp; exact ih _ stI stO stI' rest hinv hb hrest
-      | none =>
-        simp; rw [balance_skip _ (by simp [Event.isStartEnd])]
-        exact ih _ stI stO stI' rest hinv hb hrest
+      simp only [List.nil_append]
+      exact ih _ stI stO stI' rest hinv hb hrest
     | endCdata =>
       simp [step] at hr; subst hr
       rw [balance_skip _ (by simp [Event.isStartEnd])] at hb
-      cases hw : st.waiting with
-      | some w => simp; exact ih _ stI stO stI' rest hinv hb hrest
-      | none =>
-        simp; rw [balance_skip _ (by simp [Event.isStartEnd])]
-        exact ih _ stI stO stI' rest hinv hb hrest
+      simp only [List.nil_append]
+      exact ih _ stI stO stI' rest hinv hb hrest
 
 /-- a well-nested input gives a well-nested output, and the filter ends outside any dropped element -/
 theorem wellNested_sanitize {cfg : Cfg} {s o : Stream} (hs : WellNested s)
